@@ -202,4 +202,24 @@ def check(repo: Repo, rep: Report) -> None:
            "invoke_action keeps the action's result only if it is an instance of a narrower class than DisposableBase: a composite / serial / "
            "multiple-assignment disposable returned by the action is replaced by a no-op, and disposing the scheduled item no longer cancels "
            "the follow-up work — an action cancelled before it starts still runs")
+    # siblings: every schedule_absolute that delegates to schedule_relative passes `<due time> - self.now`
+    rep.rule("D2-absolute-is-relative-to-now", "schedule_absolute -> schedule_relative(<due> - self.now, ...) in every scheduler that delegates", floor=8)
+    for rel in sorted(repo.modules):
+        if not rel.startswith("reactivex/scheduler/"):
+            continue
+        for c in repo.modules[rel].tree.body:
+            if not isinstance(c, ast.ClassDef):
+                continue
+            for mth in c.body:
+                if isinstance(mth, ast.FunctionDef) and mth.name == "schedule_absolute":
+                    for x in ast.walk(mth):
+                        if isinstance(x, ast.Call) and isinstance(x.func, ast.Attribute) and x.func.attr == "schedule_relative" and x.args:
+                            a0 = x.args[0]
+                            okd = isinstance(a0, ast.BinOp) and isinstance(a0.op, ast.Sub) and u(a0.right) == "self.now" and "now" not in u(a0.left)
+                            if isinstance(a0, ast.Name):
+                                dd = [n_.value for n_ in ast.walk(mth) if isinstance(n_, (ast.Assign, ast.AnnAssign)) and n_.value is not None and u(n_.targets[0] if isinstance(n_, ast.Assign) else n_.target) == a0.id]
+                                okd = any(isinstance(v, ast.BinOp) and isinstance(v.op, ast.Sub) and u(v.right) == "self.now" and "now" not in u(v.left) for v in dd)
+                            rep.ob("D2-absolute-is-relative-to-now", f"{rel}::{c.name}.schedule_absolute", f"{c.name}.schedule_absolute: `{short(x, 60)}`", okd,
+                                   f"{c.name}.schedule_absolute does not delegate with (due time - now): a future due time becomes a negative / doubled delay, "
+                                   f"the action runs before (or long after) its due time")
     rule_invoke_guard(repo, rep, "S1-invoke-guard")
